@@ -74,7 +74,12 @@ class _ScriptEnd(BaseException):
     pass
 
 
-EXC = {"caught": E1, "sub": E1Sub, "other": E3, "uncaught": E2, "cancelled": asyncio.CancelledError, "base": Base}
+class CancelledE1(asyncio.CancelledError, E1Sub):
+    """a cancellation that is also an instance of the caught classes (an application's own OperationCancelled)"""
+
+
+EXC = {"caught": E1, "sub": E1Sub, "other": E3, "uncaught": E2, "cancelled": asyncio.CancelledError, "base": Base,
+       "cancexc": CancelledE1}
 
 
 class RetryDriver:
@@ -237,7 +242,7 @@ def gen_trace(rnd, max_limit=9):
     d = RetryDriver()
     d.reset(dict(cfg=cfg))
     tr = [dict(ev="Init", init=dict(cfg=cfg))]
-    weights = ["caught"] * 6 + ["sub"] * 3 + ["other"] * 3 + ["uncaught", "ok", "cancelled", "base"]
+    weights = ["caught"] * 6 + ["sub"] * 3 + ["other"] * 3 + ["uncaught", "ok", "cancelled", "base", "cancexc"]
     for _ in range(cfg["limit"] + 2):
         if cfg["mode"] == "async" and cfg["delay"] != "none" and len(tr) > 1 and rnd.random() < 0.15:
             obs = d.apply("CancelInPause", ())
